@@ -7,5 +7,6 @@ pub mod print;
 pub mod rng;
 pub mod gen;
 pub mod gen_lat;
+pub mod gen_mac;
 pub mod xform;
 pub mod meta;
